@@ -320,6 +320,7 @@ def run_once(case, kill_plan):
         if not own() and not sim.viol:      # a monitor of another property stopped the case: state is tainted, no closing verdict
             # closing phase: everybody comes back, faults stop; state == fold and SUCCESS-acknowledged commands stay
             sim.blocked = set()
+            sim.quiet_config()
             for n in list(sim.dead_voters()):
                 sim.op_restart(sim.dead_voters().index(n), 0, 0)
                 sim.check(light=True)
